@@ -92,3 +92,20 @@ package protocol
 //@     invariant forall k int :: 0 < k && k <= idx && cutAt(content(contentBytes), k) < len(contentBytes) ==> at(content(contentBytes), cutAt(content(contentBytes), k) - 1) != 27
 //@     invariant forall k int :: 0 <= k && k <= idx ==> cutAt(content(contentBytes), k) <= begin
 //@     decreases len(contentBytes) - begin
+
+// SMPP: 0 = GSM 7-bit unpacked, 99 = GSM 7-bit packed (library-internal number), 1 = ASCII, 3 = Latin-1, 8 = UCS-2.
+//@ pred smppvalid(f int) = f == 0 || f == 1 || f == 3 || f == 8 || f == 99
+//@ pred smppok(f int, c Bytes) = f == 1 ? datacoding.isascii(c) : (f == 3 ? latin1ok(c) : (f == 0 ? gsmok(c) : ucs2ok(c)))
+//@ pure func smppenc(f int, c Bytes) Bytes = f == 1 ? c : (f == 3 ? latin1enc(c) : (f == 0 ? gsmenc(c) : ucs2enc(c)))
+//@ pure func smppper(f int) int = f == 0 ? 153 : 134
+//@ pure func smppmax(f int) int = f == 0 ? 160 : 140
+
+//@ func EncodeSMPPContentAndSplit
+//@   props C06,C07
+//@   ensures [C06 coding.requested] (int(msgFmt) == 0 || int(msgFmt) == 1 || int(msgFmt) == 3 || int(msgFmt) == 8) && smppok(int(msgFmt), content) && (len(smppenc(int(msgFmt), content)) + smppper(int(msgFmt)) - 1) / smppper(int(msgFmt)) <= 255 ==> err == nil && int(actualMsgFmt) == int(msgFmt)
+//@   ensures [C06 coding.fallback] int(msgFmt) != 99 && !(smppvalid(int(msgFmt)) && smppok(int(msgFmt), content)) && ucs2ok(content) && (len(ucs2enc(content)) + 133) / 134 <= 255 ==> err == nil && int(actualMsgFmt) == 8
+//@   ensures [C06 coding.error] int(msgFmt) != 99 && !(smppvalid(int(msgFmt)) && smppok(int(msgFmt), content)) && !ucs2ok(content) ==> err != nil
+//@   ensures [C06,C07 single] err == nil && int(actualMsgFmt) != 99 && len(smppenc(int(actualMsgFmt), content)) <= smppmax(int(actualMsgFmt)) ==> len(contents) == 1 && contents[0] == smppenc(int(actualMsgFmt), content)
+//@   ensures [C06,C07 multi134] err == nil && int(actualMsgFmt) != 99 && int(actualMsgFmt) != 0 && len(smppenc(int(actualMsgFmt), content)) > 140 ==> len(contents) == (len(smppenc(int(actualMsgFmt), content)) + 133) / 134 && len(contents) <= 255 && partsOf(contents, smppenc(int(actualMsgFmt), content), int(frameKey), 134)
+//@   ensures [C06,C07 multi153] err == nil && int(actualMsgFmt) == 0 && len(gsmenc(content)) > 160 ==> len(contents) == (len(gsmenc(content)) + 152) / 153 && len(contents) <= 255 && partsOf(contents, gsmenc(content), int(frameKey), 153)
+//@   ensures [C06 packed] int(msgFmt) == 99 && err == nil ==> int(actualMsgFmt) == 99 || int(actualMsgFmt) == 8
